@@ -7,8 +7,9 @@
    theorem holds for subtrees of ANY depth and ANY call index k. *)
 From Coq Require Import List Arith ZArith Bool.
 Import ListNotations.
-From ND.model Require Import Batch GenComb.
-From ND.proofs Require Import C14_batch C13_lists C13_comb.
+From ND.model Require Import PySem Batch GenComb.
+From ND.gen Require Import Gen_C13.
+From ND.proofs Require Import C14_batch C13_lists C13_comb C13_gen.
 
 (* ROW COHERENCE, whole tree (structural induction): for every tree satisfying the property's
    preconditions [ok] (same dimension count in a concat, equal run-time sizes in an ensemble,
@@ -263,3 +264,68 @@ Theorem C13_size_of_columns :
       sample draw mask rperm rint tvec tmulti g k = Some (f, cs) ->
       Forall (fun c : row => length c = csize g) cs.
 Proof. exact size_of_columns. Qed.
+
+(* ------------------------------------------------------------------------------------------
+   The tie to the source: gen/Gen_C13.v is REGENERATED on every run from the combinator classes by a
+   fail-closed syntax-directed translator (tools/props/t_C13.py); the following theorems say that the
+   code as translated IS the corresponding part of the model, for all arguments.  ([out_of_pyv v] =
+   a get_examples() value as (container, vectors); [splice h] = the children a constructed child h
+   contributes to a MeshGenerator; [rows_n v] = the length of the first vector of v -- proofs/C13_gen.v.)
+   Not translated: see the header of tools/props/t_C13.py. *)
+Theorem C13_gen_concat_init : forall gs : list gen, concat_init gs = Some (gs, csize (Concat gs)).
+Proof. exact gen_concat_init_eq. Qed.
+
+Theorem C13_gen_ensemble_init :
+  forall gs : list gen,
+    ensemble_init gs =
+    match gs with
+    | [] => None
+    | h :: _ => if forallb (fun x => Nat.eqb (csize x) (csize h)) gs then Some (gs, csize (Ensemble gs)) else None
+    end.
+Proof. exact gen_ensemble_init_eq. Qed.
+
+Theorem C13_gen_ensemble_init_built :
+  forall gs : list gen,
+    forallb built gs = true -> (built (Ensemble gs) = true <-> exists r : list gen * nat, ensemble_init gs = Some r).
+Proof. exact gen_ensemble_init_built. Qed.
+
+Theorem C13_gen_mesh_init :
+  forall gs : list gen,
+    norm (Mesh gs) = Mesh (flat_map splice gs) /\
+    mesh_init (map norm gs) = Some (flat_map splice gs, csize (Mesh (flat_map splice gs))).
+Proof. exact gen_mesh_init_eq. Qed.
+
+Theorem C13_gen_static :
+  forall (child : pyv) (gsize : nat),
+    static_init child gsize = Some (gsize, child) /\ static_get_examples child = Some (child, tt).
+Proof. exact gen_static_eq. Qed.
+
+Theorem C13_gen_filter :
+  forall (draw : nat -> nat -> list row) (mask : nat -> nat -> list bool) (rperm rint : nat -> nat -> list nat)
+         (tvec : nat -> row -> row) (tmulti : nat -> list row -> out) (g : gen) (m : nat) (s : option nat)
+         (upd : bool) (k : nat) (v : pyv) (filter_fn : list row -> list bool) (size : nat),
+    sample draw mask rperm rint tvec tmulti g k = Some (out_of_pyv v) ->
+    mask m k = filter_fn (cols_of v) ->
+    option_map (fun p : pyv * nat => out_of_pyv (fst p)) (filter_get_examples filter_fn v size upd) =
+    sample draw mask rperm rint tvec tmulti (Filter g m s upd) k /\
+    (forall (r : pyv) (sz' : nat),
+        filter_get_examples filter_fn v size upd = Some (r, sz') ->
+        sz' = (if upd then size_at draw mask rperm rint tvec tmulti (Filter g m s true) (S k) else size)).
+Proof. exact gen_filter_eq. Qed.
+
+Theorem C13_gen_resample :
+  forall (draw : nat -> nat -> list row) (mask : nat -> nat -> list bool) (rperm rint : nat -> nat -> list nat)
+         (tvec : nat -> row -> row) (tmulti : nat -> list row -> out) (g : gen) (r : nat) (sz : option nat)
+         (repl : bool) (k : nat) (v : pyv) (randint : nat -> nat -> list nat) (randperm : nat -> list nat),
+    sample draw mask rperm rint tvec tmulti g k = Some (out_of_pyv v) ->
+    rint r k = randint (rows_n v) (rsize g sz) ->
+    rperm r k = randperm (rows_n v) ->
+    sample draw mask rperm rint tvec tmulti (Resample g r sz repl) k =
+    (if (if repl
+         then Nat.eqb (length (randint (rows_n v) (rsize g sz))) (rsize g sz) &&
+              forallb (fun i : nat => Nat.ltb i (rows_n v)) (randint (rows_n v) (rsize g sz))
+         else Nat.eqb (length (randperm (rows_n v))) (rows_n v))
+     then option_map (fun p : pyv * unit => out_of_pyv (fst p))
+                     (resample_get_examples randint randperm v (rsize g sz) repl)
+     else None).
+Proof. exact gen_resample_eq. Qed.
